@@ -99,6 +99,7 @@ def _param_factory(spec: Recipe) -> Any:
             initialization=spec.get("init", "normal"),
             dtype=spec.get("dtype", "real"),
             initialization_kwargs=dict(spec.get("init_kwargs", {})),
+            activation_kwargs=dict(spec.get("act_kwargs", {})),
         )
     )
 
@@ -237,10 +238,30 @@ def gen_sum(rng: random.Random, *, monotonic: bool, normalized: bool = False) ->
     if monotonic:
         act = rng.choice(["softmax", "softplus", "sigmoid", "positive-clamp"])
         init = "uniform" if act == "positive-clamp" else rng.choice(["normal", "uniform"])
-        return {"act": act, "init": init}
-    act = rng.choice(["none", "none", "softmax", "softplus"])
+        spec: Recipe = {"act": act, "init": init}
+        if act == "positive-clamp":
+            # boundary values of the hyper-parameters on purpose: a bound that is exactly 0.0
+            r = rng.random()
+            if r < 0.4:
+                spec["act_kwargs"] = {"vmin": 0.0, "vmax": rng.choice([1.0, 2.0])}
+            elif r < 0.6:
+                spec["act_kwargs"] = {"vmin": 0.05}
+        return _init_kwargs(rng, spec)
+    act = rng.choice(["none", "none", "softmax", "softplus", "positive-clamp"])
     init = rng.choice(["normal", "uniform", "dirichlet"])
-    return {"act": act, "init": init}
+    spec = {"act": act, "init": init}
+    if act == "positive-clamp":
+        spec["act_kwargs"] = rng.choice([{"vmin": 0.0, "vmax": 1.0}, {"vmin": -0.5, "vmax": 0.0},
+                                         {"vmin": 0.0}])
+    return _init_kwargs(rng, spec)
+
+
+def _init_kwargs(rng: random.Random, spec: Recipe) -> Recipe:
+    if spec["init"] == "uniform" and rng.random() < 0.3:
+        spec["init_kwargs"] = {"a": rng.choice([0.0, -1.0, 0.2]), "b": rng.choice([0.5, 2.0])}
+    elif spec["init"] == "normal" and rng.random() < 0.3:
+        spec["init_kwargs"] = {"mean": rng.choice([0.0, 1.0]), "stddev": rng.choice([0.5, 2.0])}
+    return spec
 
 
 # ---------------------------------------------------------------------------
